@@ -338,37 +338,33 @@ def _r3(ck: Checker, prog: Program):
         "HvsrAzimuthal": "HvsrCurve._find_peak_bounded(self.frequency, self.mean_curve(distribution), search_range_in_hz=self._search_range_in_hz, find_peaks_kwargs=self._find_peaks_kwargs)",
         "HvsrDiffuseField": "HvsrCurve._find_peak_bounded(self.frequency, self.mean_curve(), search_range_in_hz=search_range_in_hz, find_peaks_kwargs=find_peaks_kwargs)",
     }
+    from ..pathtable import PathTable, literals
+    gi = sp.Function("getitem")
     for cname, src in spec.items():
         cls = prog.cls(cname)
         m = cls.methods["mean_curve_peak"]
-        c = calls_in(m.node, "_find_peak_bounded")
-        good = False
-        detail = ""
-        if len(c) == 1:
-            b = bind_call(c[0], prog.cls("HvsrCurve").methods["_find_peak_bounded"].params)
-            wantc = ast.parse(src, mode="eval").body
-            wb = bind_call(wantc, prog.cls("HvsrCurve").methods["_find_peak_bounded"].params)
-            amp = b.get("amplitude")
-            amp_src = unparse(amp)
-            if isinstance(amp, ast.Name):
-                d = [s for s in m.node.body if isinstance(s, ast.Assign) and unparse(s.targets[0]) == amp.id]
-                amp_src = unparse(d[0].value) if d else amp_src
-            got = {k: unparse(v) for k, v in b.items()}
-            got["amplitude"] = amp_src.replace("distribution=distribution", "distribution")
-            want = {k: unparse(v) for k, v in wb.items()}
-            good = got == want
-            detail = f"{got}"
-            tgt = parent_of(c[0])
-            pair = unparse(tgt.targets[0]) if isinstance(tgt, ast.Assign) else None
-            rets = [r for r in S.returns_of(m)]
-            good = good and pair in ("(f_peak, a_peak)", "f_peak, a_peak") and rets and unparse(rets[-1].value) == "(f_peak, a_peak)"
+        hook1 = pkg_call_hook(prog, m.module, cls)
+        hook2 = _norecv(pkg_call_hook(prog, m.module, prog.cls("HvsrCurve"), self_name="HvsrCurve"))
+
+        def hook(call, T, hook1=hook1, hook2=hook2):
+            r = hook2(call, T)
+            return r if r is not None else hook1(call, T)
+        TW = Translator(call_hook=hook)
+        TW.attr_of_bound = True
+        want_call = TW.tr(ast.parse(src, mode="eval").body)
+        leaves = PathTable(prog, m.module, call_hook=hook).leaves(m.node.body)
+        rets = [l for l in leaves if l.exit == "return"]
+        wants = [want_call, sp.Tuple(gi(want_call, sp.Integer(0)), gi(want_call, sp.Integer(1)))]
+        good = bool(rets) and all(l.value in wants for l in rets)
         if good:
-            ck.ok("C08.R3", m.qualname, norm_key(c[0], 110))
+            ck.ok("C08.R3", m.qualname, f"returns the bounded peak of the mean curve over the range in force", detail=str(want_call)[:160])
         else:
+            got = [str(l.value)[:200] for l in rets]
             ck.violation("C08.R3", m.qualname, "mean-curve peak search",
-                         f"the peak of the mean curve is not searched as `{src}` ({detail})", loc=m.loc())
-        raises = [st for st in m.node.body if isinstance(st, ast.If) and any(isinstance(b, ast.Raise) for b in st.body) and "f_peak is None" in unparse(st.test)]
-        if not raises:
+                         f"the peak of the mean curve is not searched as `{src}` (returns {got})", loc=m.loc())
+        absent = sp.Eq(gi(want_call, sp.Integer(0)), sp.Symbol("None"), evaluate=False)
+        refused = any(l.exit == "raise" and any(str(absent) in str(x) for x in literals(l)) for l in leaves)
+        if not refused:
             ck.violation("C08.R3", m.qualname, "absent mean-curve peak", "an absent mean-curve peak is not refused", loc=m.loc())
     az = prog.cls("HvsrAzimuthal")
     for pname in ("_search_range_in_hz", "_find_peaks_kwargs"):
